@@ -13,7 +13,7 @@ def eff (rows : List CRow) (p : Bytes) : List CRow :=
 inductive KState (t : Table) (m0 m : Spec) (fl : Bytes → Flag) (p : Bytes) : Prop where
   | clean (h1 : eff t.rows p = []) (h2 : assocGet t.rowmap p = none) (h3 : m p = m0 p)
       (h4 : m0 p ≠ none → fl p = .fresh)
-  | deleted (old : Row) (h1 : eff t.rows p = [⟨.del, p, old, none⟩]) (h2 : assocGet t.rowmap p = none)
+  | deleted (old : Row) (o : Option Row) (h1 : eff t.rows p = [⟨.del, p, old, o⟩]) (h2 : assocGet t.rowmap p = none)
       (h3 : m0 p = some old) (h4 : m p = none) (h5 : fl p = .deleted)
   | added (i : Nat) (d : Row) (h1 : eff t.rows p = [⟨.add, p, d, none⟩])
       (h2 : assocGet t.rowmap p = some i) (h3 : t.rows[i]? = some ⟨.add, p, d, none⟩)
@@ -136,8 +136,8 @@ theorem kstate_frame (t t' : Table) (m0 m m' : Spec) (fl fl' : Bytes → Flag) (
     (hm : m' p = m p) (hfl : fl' p = fl p) (h : KState t m0 m fl p) : KState t' m0 m' fl' p := by
   cases h with
   | clean h1 h2 h3 h4 => exact .clean (by rw [heff]; exact h1) (by rw [hmap]; exact h2) (by rw [hm]; exact h3) (by rw [hfl]; exact h4)
-  | deleted old h1 h2 h3 h4 h5 =>
-    exact .deleted old (by rw [heff]; exact h1) (by rw [hmap]; exact h2) h3 (by rw [hm]; exact h4) (by rw [hfl]; exact h5)
+  | deleted old o h1 h2 h3 h4 h5 =>
+    exact .deleted old o (by rw [heff]; exact h1) (by rw [hmap]; exact h2) h3 (by rw [hm]; exact h4) (by rw [hfl]; exact h5)
   | added i d h1 h2 h3 h4 h5 h6 =>
     exact .added i d (by rw [heff]; exact h1) (by rw [hmap]; exact h2) (hrows i _ h2 h3) h4 (by rw [hm]; exact h5) h6
   | updated i d old h1 h2 h3 h4 h5 h6 h7 =>
@@ -173,7 +173,7 @@ theorem frame_set (t : Table) (i : Nat) (r r' : CRow) (q : Bytes) (rowmap' : Lis
       -- x is the row of p, r the row of q
       cases h with
       | clean _ h2 _ _ => rw [h2] at hj; cases hj
-      | deleted _ _ h2 _ _ _ => rw [h2] at hj; cases hj
+      | deleted _ _ _ h2 _ _ _ => rw [h2] at hj; cases hj
       | added i' d _ h2 h3 _ _ _ =>
         rw [h2] at hj; have := Option.some.inj hj; subst this
         rw [hi] at h3; have := Option.some.inj h3
@@ -340,7 +340,7 @@ theorem step_clean_present (db0 : TDB) (m0 : Spec) (hrep : Rep db0 m0) (t : Tabl
     simp only [exec, del, hfind, specStep, hmq]
     refine ⟨trivial, inv_append db0 m0 t m _ fl _ _ pk hinv rfl hq (by intro h; cases h)
       (fun p hp => set_other m pk _ p hp) (fun p hp => by simp [hp]) ?_⟩
-    refine .deleted old ?_ ?_ hm0 (set_self m pk _) (by simp)
+    refine .deleted old none ?_ ?_ hm0 (set_self m pk _) (by simp)
     · rw [addRowCache_rows, eff_append, h1]; simp
     · simp [addRowCache, assocGet_del]
 
@@ -430,7 +430,40 @@ theorem step_updated (db0 : TDB) (m0 : Spec) (t : Table) (m : Spec)
       rw [eff_set_self t.rows i _ _ d'.pk h3 h1 ⟨rfl, by simp⟩]; simp
     · show (t.rows.set i _)[i]? = _
       simp [hlt]
-  | del pk => simp at hgood
+  | del pk =>
+    simp only [Op.pk] at *
+    simp only [Option.some.injEq] at hgood
+    subst hgood
+    simp only [exec, del, hfind, specStep, h5]
+    have hne : ¬ (Ty.update = Ty.add) := by decide
+    simp only [hne, if_false]
+    refine ⟨trivial, hinv.db, ?_, ?_, ?_⟩
+    · intro x hx
+      rw [addRowCache_rows] at hx
+      rcases List.mem_append.1 hx with h | h
+      · rcases List.mem_or_eq_of_mem_set h with h' | h'
+        · exact hinv.nosep x h'
+        · rw [h']; exact hq
+      · simp only [List.mem_singleton] at h; rw [h]; exact hq
+    · intro x hx
+      rw [addRowCache_rows] at hx
+      rcases List.mem_append.1 hx with h | h
+      · rcases List.mem_or_eq_of_mem_set h with h' | h'
+        · exact hinv.savable x h'
+        · rw [h']; intro hc; cases hc
+      · simp only [List.mem_singleton] at h; rw [h]; intro hc; cases hc
+    · intro p
+      by_cases hp : p = pk
+      · subst hp
+        refine .deleted old (some old) ?_ ?_ h4 (set_self m p _) (by simp)
+        · rw [addRowCache_rows, eff_append]
+          show eff (t.rows.set i _) p ++ _ = _
+          rw [eff_set_self t.rows i _ _ p h3 h1 ⟨rfl, by simp⟩]
+          simp
+        · simp [addRowCache, assocGet_del]
+      · apply frame_append _ _ m0 m _ fl _ p (fun e => hp e.symm) (set_other m pk _ p hp) (by simp [hp])
+        exact frame_set t i _ _ pk (assocDel t.rowmap pk) m0 m m fl fl p h3 rfl rfl (fun e => hp e.symm)
+          (by simp [assocGet_del, hp]) rfl rfl (hinv.keys p)
 
 /-- one good step keeps the simulation invariant and answers like the map. -/
 theorem step_inv (db0 : TDB) (m0 : Spec) (hrep : Rep db0 m0) (t : Table) (m : Spec)
@@ -447,7 +480,7 @@ theorem step_inv (db0 : TDB) (m0 : Spec) (hrep : Rep db0 m0) (t : Table) (m : Sp
     | some old =>
       exact step_clean_present db0 m0 hrep t m fl fl' op hinv hq h1 h2 h3 old hm0
         (h4 (by rw [hm0]; simp)) hgood
-  | deleted old h1 h2 h3 h4 h5 => simp [goodStep, h3, h5] at hgood
+  | deleted old o h1 h2 h3 h4 h5 => simp [goodStep, h3, h5] at hgood
   | added i d h1 h2 h3 h4 h5 h6 =>
     have : fl' = fl := by simp [goodStep, h4] at hgood; exact hgood.symm
     subst this
@@ -539,12 +572,14 @@ theorem inv_save (db0 : TDB) (m0 : Spec) (hrep : Rep db0 m0) (t : Table) (m : Sp
     apply repAtG_congr (get db0) _ m0 m p _ h3.symm (hrep p hp)
     intro key hk
     rw [hview key hk, h1]; rfl
-  | deleted old h1 h2 h3 h4 h5 =>
+  | deleted old o h1 h2 h3 h4 h5 =>
     have hB := op_kvs_correct (get db0) m0 (.del p) hp (hrep p hp)
     simp only [rowOfSpec, Op.pk, h3] at hB
     apply repAtG_congr _ _ _ m p _ _ hB
     · intro key hk
-      rw [hview key hk, h1]; simp
+      have hsame : rowKVs ⟨.del, p, old, o⟩ = rowKVs ⟨.del, p, old, none⟩ := by
+        simp [rowKVs, saveRow, delRow]
+      rw [hview key hk, h1]; simp [hsame]
     · simp [specStep, h3, Spec.set, h4]
   | added i d h1 h2 h3 h4 h5 h6 =>
     have hB := op_kvs_correct (get db0) m0 (.add d) (by rw [Op.pk, h6]; exact hp)
